@@ -20,6 +20,7 @@
     with the loop body (`classifyIP` / `classifySCION`).
 -/
 import ScionTime.Model.ClientFlow
+import ScionTime.Gen.Client
 import ScionTime.Proofs.ClientNtp
 namespace ScionTime.Props.C05Wrap
 open ScionTime.Time64 ScionTime.NtpMath ScionTime.ClientNtp ScionTime.ClientFlow
@@ -611,5 +612,13 @@ theorem C05W_site_scion (cfg : Cfg) (sc : ScionCtx) (prev : Prev) (req : Req) (c
     · rename_i hk; rw [if_neg hk]; exact hn.2 h e
 
 example : scionSites.length = 13 ∧ ipSites.length = 7 := by decide
+
+/-- **Pin** (regenerated from core/client/client.go on every run, `harness/extract/x_c03c05c10c11.go`):
+    both attempt loops run over `range n` and their only way out other than running to the end is the
+    `break` behind `e == nil && ntpc.InInterleavedMode()` — no exit that depends on the context. -/
+theorem C05W_pin_attempt_loops :
+    Gen.Client.attemptLoopRangeIP = "n" ∧ Gen.Client.attemptLoopRangeSCION = "n" ∧
+    Gen.Client.attemptLoopExitsIP = "break if e == nil && ntpc.InInterleavedMode()" ∧
+    Gen.Client.attemptLoopExitsSCION = "break if e == nil && ntpc.InInterleavedMode()" := by decide
 
 end ScionTime.Props.C05Wrap
